@@ -222,7 +222,10 @@ def _worker(job):
     func, part, arg = job
     try:
         start_watchdog()
-        res = func(arg).pack()
+        sh = func(arg)
+        for v in sh.viol:
+            v["shard"] = [func.__module__, func.__name__, arg]
+        res = sh.pack()
         _CURRENT[0] = None
         return part, res, None
     except Exception:
@@ -243,7 +246,10 @@ def run_shards(ctx, jobs_list, report=None):
         results = map(_worker, order)
     else:
         mp = multiprocessing.get_context("fork")
-        pool = mp.Pool(min(ctx.jobs, len(order)))
+        # one fresh forked process per shard: a shard's outcome is a function
+        # of its argument only, not of what the worker ran before (matters
+        # for defects that depend on call history, e.g. a cache)
+        pool = mp.Pool(min(ctx.jobs, len(order)), maxtasksperchild=1)
         results = pool.imap_unordered(_worker, order, chunksize=1)
     try:
         for part, packed, err in results:
@@ -300,6 +306,79 @@ def unjson(x):
     return x
 
 
+def _case_child(conn, replay_fn, check, case, cls):
+    try:
+        try:
+            with hang_guard():
+                r = replay_fn(check, case)
+        except Hang as e:
+            r = {"cls": cls, "observed": str(e)}
+        conn.send(None if r is None else {"cls": str(r.get("cls"))})
+    except BaseException as e:          # noqa
+        conn.send({"cls": cls, "observed": "%s: %s" % (type(e).__name__, e)})
+
+
+def _isolated_replay(replay_fn, check, case, cls):
+    """confirm a single case in a forked child, so that the main process
+    never runs the code under test (its module-level state stays pristine
+    for a possible shard-level confirmation)"""
+    mp = multiprocessing.get_context("fork")
+    a, b = mp.Pipe()
+    p = mp.Process(target=_case_child, args=(b, replay_fn, check, case, cls))
+    p.start()
+    r = a.recv() if a.poll(HANG_SECONDS + 60) else {"cls": cls,
+                                                     "observed": "timeout"}
+    p.join(5)
+    if p.is_alive():
+        p.terminate()
+    return r
+
+
+def _shard_child(conn, modname, fname, arg):
+    try:
+        import importlib
+        fn = getattr(importlib.import_module(modname), fname)
+        sh = fn(arg)
+        conn.send([dict(check=v["check"], cls=v["cls"],
+                        case=jsonable(v["case"]),
+                        expected=jsonable(v.get("expected")),
+                        observed=jsonable(v.get("observed")))
+                   for v in sh.viol])
+    except BaseException as e:          # noqa
+        conn.send("ERROR %s: %s" % (type(e).__name__, e))
+
+
+def replay_shard(shard, check, cls, case, in_process=False):
+    """Re-run a whole shard (a deterministic function of its argument) from a
+    fresh process and look for the same violation: used when a failure
+    depends on the calls made before it and cannot be reproduced alone."""
+    modname, fname, arg = shard
+    arg = unjson(jsonable(arg))
+    if in_process:
+        import importlib
+        fn = getattr(importlib.import_module(modname), fname)
+        viols = [dict(check=v["check"], cls=v["cls"], case=jsonable(v["case"]),
+                      expected=jsonable(v.get("expected")),
+                      observed=jsonable(v.get("observed")))
+                 for v in fn(arg).viol]
+    else:
+        mp = multiprocessing.get_context("fork")
+        a, b = mp.Pipe()
+        p = mp.Process(target=_shard_child, args=(b, modname, fname, arg))
+        p.start()
+        viols = a.recv() if a.poll(1800) else "ERROR timeout"
+        p.join(5)
+        if p.is_alive():
+            p.terminate()
+    if isinstance(viols, str):
+        return None
+    want = jsonable(case)
+    for v in viols:
+        if v["check"] == check and v["cls"] == cls and v["case"] == want:
+            return v
+    return None
+
+
 def write_replay(prop, v):
     os.makedirs(REPLAY_DIR, exist_ok=True)
     body = {
@@ -310,6 +389,9 @@ def write_replay(prop, v):
         "expected": jsonable(v.get("expected")),
         "observed": jsonable(v.get("observed")),
     }
+    if v.get("replay_mode") == "shard":
+        body["replay_mode"] = "shard"
+        body["shard"] = jsonable(v["shard"])
     blob = json.dumps(body, sort_keys=True)
     digest = hashlib.sha256(blob.encode()).hexdigest()[:12]
     path = os.path.join(REPLAY_DIR, "%s-%s.json" % (prop, digest))
@@ -332,39 +414,46 @@ def finish(ctx, report, level, replay_fn=None):
             known_hit.setdefault(key, []).append(v)
         else:
             fresh.append(v)
-    # re-execute every fresh violation from its replay record before printing
-    confirmed = []
+    # choose the violations to report (a few per cause class), and re-execute
+    # each of them from its replay record before printing it
+    per_cls = collections.Counter()
+    chosen = []
     for v in fresh:
+        key = (v["check"], v["cls"])
+        if per_cls[key] >= 3 or len(chosen) >= MAX_REPLAYS:
+            continue
+        per_cls[key] += 1
+        chosen.append(v)
+    confirmed = []
+    for v in chosen:
         if replay_fn is not None:
             case = unjson(jsonable(v["case"]))
-            with hang_guard():
-                again = replay_fn(v["check"], case)
+            again = _isolated_replay(replay_fn, v["check"], case, v["cls"])
+            if again is None and v.get("shard"):
+                # not reproducible in isolation: does the shard, re-run from
+                # a fresh process, show the same failure again?
+                if replay_shard(v["shard"], v["check"], v["cls"],
+                                v["case"]) is not None:
+                    v["replay_mode"] = "shard"
+                    again = v
             if again is None:
                 raise Nondeterminism(
                     "violation did not reproduce from its replay record: %r"
-                    % (v,))
+                    % ({k: x for k, x in v.items() if k != "shard"},))
         confirmed.append(v)
     for key, vs in known_hit.items():
         k = active[key]
         print("KNOWN-FINDING: property=%s %s [%s/%s; %d case(s) this run, e.g. %s]"
               % (ctx.prop, k["what"], key[0], key[1], len(vs),
                  json.dumps(jsonable(vs[0]["case"]))[:300]))
-    seen_cls = set()
-    nrep = 0
     for v in confirmed:
-        key = (v["check"], v["cls"])
-        if key in seen_cls and nrep >= 3:
-            continue
-        if nrep >= MAX_REPLAYS:
-            break
-        seen_cls.add(key)
         path = write_replay(ctx.prop, v)
-        nrep += 1
         print("VIOLATION property=%s replay=%s" % (ctx.prop, path))
         print("  check=%s class=%s case=%s expected=%s observed=%s" % (
             v["check"], v["cls"], json.dumps(jsonable(v["case"]))[:400],
             json.dumps(jsonable(v.get("expected")))[:200],
             json.dumps(jsonable(v.get("observed")))[:200]))
+    n_fresh = len(fresh)
     cov = {
         "evaluations": report.n,
         "distinct_nontrivial": report.nt,
@@ -391,7 +480,7 @@ def finish(ctx, report, level, replay_fn=None):
             "code under verification imported from %s" % REPO_SRC,
         ],
         "wall_s": round(time.time() - ctx.t0, 2),
-        "violations": len(confirmed),
+        "violations": n_fresh,
     }
     os.makedirs(EVIDENCE_DIR, exist_ok=True)
     tmp = os.path.join(EVIDENCE_DIR, ".%s.json.tmp" % ctx.prop)
@@ -400,7 +489,7 @@ def finish(ctx, report, level, replay_fn=None):
     os.replace(tmp, os.path.join(EVIDENCE_DIR, "%s.json" % ctx.prop))
     print("%s tier=%s seed=%d evaluations=%d nontrivial=%d violations=%d "
           "known=%d wall=%.1fs" % (ctx.prop, ctx.tier, ctx.seed, report.n,
-                                   report.nt, len(confirmed),
+                                   report.nt, n_fresh,
                                    sum(len(v) for v in known_hit.values()),
                                    time.time() - ctx.t0))
-    return 1 if confirmed else 0
+    return 1 if n_fresh else 0
